@@ -1,0 +1,14 @@
+//go:build verif
+
+// Exports for the verification harness in /verif (build tag `verif` only).
+
+package hls
+
+import "github.com/q191201771/naza/pkg/filesystemlayer"
+
+// VerifSetFsl installs an instrumented file-system layer (and returns the previous one).
+func VerifSetFsl(f filesystemlayer.IFileSystemLayer) filesystemlayer.IFileSystemLayer {
+	old := fslCtx
+	fslCtx = f
+	return old
+}
